@@ -178,6 +178,10 @@ def run_check(pid, tier, seed, t0):
             "recipe": r.get("recipe", {}), "contract": r.get("contract"),
             "solver_output": "sat (model above) in %.2fs by %s" % (x["time"], x["backend"]),
         }
+        pt = {k[len("p:time."):]: v for k, v in rep["model"].items()
+              if k.startswith("p:time.")}
+        if pt:
+            rep["patch_time"] = pt
         fname = re.sub(r"[^A-Za-z0-9_.\[\]-]", "_", "%s__%s" % (x["name"], t["mode"]))[:150]
         path = os.path.join(VERIF, "replays", pid, fname + ".json")
         reproduced, rout = None, None
@@ -299,6 +303,12 @@ def run_check(pid, tier, seed, t0):
     }
     os.makedirs(os.path.join(VERIF, "evidence"), exist_ok=True)
     json.dump(ev, open(os.path.join(VERIF, "evidence", pid + ".json"), "w"), indent=1)
+    if os.environ.get("PYVC_TIMING"):
+        slow = sorted(results, key=lambda r: -r.get("wall_s", 0))[:8]
+        for r in slow:
+            t = r["task"]
+            print("TIMING %.1fs %s[%s] %s" % (r.get("wall_s", 0), t.get("key", t.get("lemma")),
+                                              t.get("case", ""), t["mode"]))
     for ln in lines:
         print(ln)
     print("property=%s tier=%s obligations=%d discharged=%d refuted=%d undecided=%d "
